@@ -87,7 +87,8 @@ fn gen_ops(rng: &mut Rng, maxlen: usize) -> Vec<Value> {
       ops.push(json!({"op":"mark","h":rng.below(handles as u64)}));
     } else {
       let t = table_guess.max(1);
-      let units = [0, 1, 2, 3, t / 2, t, t + 7, 10000];
+      // u64::MAX: a work unit far beyond the table (the cursor arithmetic must not overflow)
+      let units = [0, 1, 2, 3, t / 2, t, t + 7, 10000, u64::MAX as usize, u64::MAX as usize];
       ops.push(json!({"op":"sweep","n":units[rng.below(units.len() as u64) as usize]}));
     }
   }
